@@ -210,6 +210,13 @@ def _importable_names(module, name):
         return False
 
 
+# one extension code, so that EXT1 / EXT2 / EXT4 are programs the reference VM accepts (process-local)
+import copyreg as _copyreg  # noqa: E402
+EXT_CODE = 0x41
+if EXT_CODE not in _copyreg._inverted_registry:
+    _copyreg.add_extension("verif_sink", "record", EXT_CODE)
+
+
 class RefUnpickler(pickle._Unpickler):
     """CPython's pure-Python unpickler with inert find_class / persistent_load and a per-opcode hook."""
 
@@ -218,6 +225,7 @@ class RefUnpickler(pickle._Unpickler):
         self.world = world
         self.on_step = on_step
         self.halted = False
+        _copyreg._extension_cache.pop(EXT_CODE, None)   # every run resolves the extension through find_class
 
     def find_class(self, module, name):
         self.world.events.append(("resolve", module, name))
